@@ -172,12 +172,28 @@ def stage_point(ctx, stage):
         ctx.sched.point("stage." + stage)
 
 
+class EqualsAnything:
+    """A returned value that compares equal to whatever it is compared with (unittest.mock.ANY is
+    one; an array compares element-wise and has no truth value at all)."""
+
+    def __init__(self, stage):
+        self.stage = stage
+
+    def __eq__(self, other):
+        return True
+
+    def __ne__(self, other):
+        return False
+
+    __hash__ = None
+
+
 def perform(case, ctx, stage, kind):
     """Make the running stage behave as ``kind`` (raises unless RET)."""
     if kind == RET:
         return
     if kind == RETVAL:
-        return ("a value", stage)
+        return EqualsAnything(stage)
     marker = "%s!%s" % (stage, kind)
     ctx.raised.append((stage, kind, marker))
     ctx.xlog.append(("raise", stage, kind))
